@@ -293,7 +293,8 @@ func (p *Parser) lookupManipulatorFunc(funcName, optName string, pos token.Pos) 
 		return nil, logger.Errorf("%v: function %v cannot use for %v func", p.fset.Position(pos), funcName, optName)
 	}
 
-	if sig.Params().Len() < 2 {
+	if sig.Params().Len() < 2 || sig.Variadic() {
+		// (the arguments are passed one by one: a variadic parameter would need "args...")
 		return nil, logger.Errorf("%v: function %v cannot use for %v func", p.fset.Position(pos), funcName, optName)
 	}
 	additionalArgs := make([]types.Type, sig.Params().Len()-2)
